@@ -97,7 +97,11 @@ func runOneMutant(id, repo, verif string) int {
 		case m.Expect == "":
 			fmt.Println("MUTANT-RESULT", id, "FALSE-ALARM", strings.Join(keys, " "))
 			for _, v := range viol {
-				fmt.Println("   ", v.Key, "::", v.Why)
+				w := v.Why
+				if len(w) > 300 {
+					w = w[:300] + "…"
+				}
+				fmt.Println("   ", v.Key, "::", w)
 			}
 			return 1
 		case hit:
